@@ -90,12 +90,46 @@ def generate(rng, tier):
             cases.append(dict(kind="s3hist", bands=[[lim, r] for lim, r in zip(REC_LIMITS, ratios)], master=master,
                               cassettes=cassettes, schedule_kind=kind, fed="recorder",
                               schedule=schedule(kind, [c["n"] for c in cassettes], rng)))
+    # highly compressible payloads: encoded and stored size fall into different bands of the calculator
+    cases += list(compressible_cases(rng, tier))
     # a single cassette alone in its history (the shape a one-cassette process has)
     master = [rng.choice(LENGTHS) for _ in range(n_master)]
     cases.append(dict(kind="s3hist", bands=[[lim, r] for lim, r in zip(LIMITS, RATIO_SETS[0])], master=master,
                       cassettes=[dict(n=n_master, twin=False, share_bucket=False)], schedule_kind="alone",
                       schedule=[0] * n_master))
     return cases
+
+
+# payloads that compress to a few dozen bytes whatever their length: the size of what is STORED (which the calculator is to
+# judge) and the size of the encoded text lie on different sides of every limit below
+COMPRESSIBLE_BANDS = [
+    [[200, [1, 1]], [None, [0, 1]]],                 # keep what is cheap to store, drop the rest
+    [[200, [0, 1]], [None, [1, 1]]],
+    [[120, [1, 2]], [250, [1, 1]], [1000, [1, 4]], [None, [0, 1]]],
+]
+
+
+def compressible_cases(rng, tier):
+    n = 12 if tier == "quick" else 60
+    for k, bands in enumerate(COMPRESSIBLE_BANDS):
+        for via in (None, "recorder"):
+            master = [LENGTHS[(j + k) % len(LENGTHS)] for j in range(n)]
+            if via:
+                # (through a recorder the metadata adds ~150 stored bytes: limits moved up accordingly)
+                bands = [[None if lim is None else lim + 200, r] for lim, r in bands]
+            cas = dict(n=n, twin=False, share_bucket=False)
+            if via:
+                cas.update(via=via, outcomes=["return", "raise", "interrupt"])
+            yield dict(kind="s3hist", bands=bands, master=master, cassettes=[cas, dict(cas, twin=True)],
+                       schedule_kind="roundrobin", schedule=schedule("roundrobin", [n, n], rng), payload_kind="repetitive",
+                       **({"fed": "recorder"} if via else {}))
+
+
+def band_ratio(bands, size):
+    for limit, ratio in bands:
+        if limit is None or size < limit:
+            return ratio
+    return None
 
 
 def rule(ratio, draw):
@@ -112,6 +146,12 @@ def direct(case, obs):
             if s["calc_calls"] != 1 or s["ratio"] is None:
                 fails.append(("s3-calculator-calls", "cassette %d save %d%s: the sampling calculator was called %d times for "
                               "one save (stored=%s)" % (i, pos, how, s["calc_calls"], s["kept"])))
+                break
+            if s.get("stored_size") is not None and s["size"] != s["stored_size"]:
+                want = band_ratio(case["bands"], s["stored_size"])
+                fails.append(("s3-calculator-size", "cassette %d save %d%s: the sampling calculator was given size %s, the "
+                              "recording takes %s bytes in storage (ratio for the stored size: %s, ratio applied: %s, stored=%s)" %
+                              (i, pos, how, s["size"], s["stored_size"], want, s["ratio"], s["kept"])))
                 break
             r = Fraction(*s["ratio"])
             if r >= 1 and not s["kept"]:
@@ -161,6 +201,8 @@ def to_gallina(case, obs):
 
 def features(case):
     fs = {"s3hist", "s3hist:" + case.get("schedule_kind", "?"), "s3hist:cassettes=%d" % len(case["cassettes"])}
+    if case.get("payload_kind") == "repetitive":
+        fs.add("s3hist:compressible-payloads(encoded-and-stored-size-in-different-bands)")
     if any(c.get("twin") for c in case["cassettes"]):
         fs.add("s3hist:content-twin")
     if any(c.get("share_bucket") for c in case["cassettes"]):
